@@ -84,9 +84,10 @@ def _check_call(rec, fname, f, X, Xcopy, extra_tensors, valid, expected_codes, c
     N = X.shape[0]
     st, val = call(f, X, *args, **kwargs)
     rec.case(N, N)
-    if not torch.equal(X, Xcopy):
+    if not torch.equal(X.detach(), Xcopy):
         rec.violation(fname + ":input_modified", case, msg="X changed by the call")
-        X.copy_(Xcopy)
+        with torch.no_grad():
+            X.detach().copy_(Xcopy)
     for t, tc in extra_tensors:
         if not torch.equal(t, tc):
             rec.violation(fname + ":motif_modified", case, msg="motif tensor changed by the call")
@@ -329,7 +330,17 @@ def run_smallbatch(rec, sh):
             for i0 in range(len(allc)):
                 codes = allc[(i0 + numpy.arange(B) * 5) % len(allc)]
                 X = ohe(codes, A, torch.float32)
-                Xc = X.clone()
+                # input variety: dtype (float16 / float64 / uint8), a non-contiguous view of a larger buffer, a leaf that requires grad
+                variant = ("float32", "float16", "float64", "uint8", "strided", "requires_grad")[(i0 + L + B) % 6]
+                if variant in ("float16", "float64", "uint8"):
+                    X = X.to(getattr(torch, variant))
+                elif variant == "strided":
+                    big = torch.zeros(B, A, 2 * L)
+                    big[:, :, ::2] = X
+                    X = big[:, :, ::2]
+                elif variant == "requires_grad":
+                    X = X.clone().requires_grad_(True)
+                Xc = X.detach().clone()
                 for w in range(1, sh["wmax"] + 1):
                     motifs = all_codes(A, w)
                     for mi in range(len(motifs)):
